@@ -100,9 +100,22 @@ class Session:
         self.eps = entry_points()
         self.base = {}
 
+    #: styles a session may have been switched over from (the style in force is set live, after output was written)
+    SWITCH_FROM = [";", "(", "[", "/*", "<"]
+    ncreated = 0
+
     def call(self, name, text):
         if self.fresh or self.g is None:
-            self.g, self.rec = F.make_builder(5, self.sym, self.le)
+            Session.ncreated += 1
+            other = self.SWITCH_FROM[Session.ncreated % len(self.SWITCH_FROM)]
+            if Session.ncreated % 3 == 0 and other != self.sym:
+                # a builder configured with another style, used, then switched with the public setter
+                self.g, self.rec = F.make_builder(5, other, self.le)
+                self.g.comment("written under the previous comment style")
+                self.g.move(x=1, comment="so was this")
+                self.g.format.set_comment_symbols(self.sym)
+            else:
+                self.g, self.rec = F.make_builder(5, self.sym, self.le)
         self.rec.raw.clear()
         try:
             self.eps[name][0](self.g, text)
